@@ -618,6 +618,28 @@ theorem rto_model_tied_to_source :
   refine ⟨by decide, by decide, by decide, by decide, by decide, by decide, by decide, by decide, by decide,
     by decide, by decide, by decide⟩
 
+/-- value of a unit identifier of package time in nanoseconds; `""` (no unit) is 1 -/
+def unitNs (u : String) : Option Nat :=
+  if u = "time.Second" then some 1000000000 else if u = "time.Millisecond" then some 1000000
+  else if u = "time.Microsecond" then some 1000 else if u = "time.Nanosecond" then some 1
+  else if u = "" then some 1 else none
+
+/-- value denoted by a regenerated `n * unit` decomposition (`Gen.RtoFacts.constParts`) -/
+def partsVal (name : String) : Option Nat :=
+  match (Gen.RtoFacts.constParts.lookup name).join with
+  | some (n, u) => (unitNs u).map (n * ·)
+  | none => none
+
+/-- the regenerated defining expressions EVALUATE to the model's constants (not only match a text): the
+    extractor only splits `n * unit` syntactically, the units get their values here. -/
+theorem rto_constants_evaluate_to_model :
+    partsVal "defaultInitialRTT" = some Rto.defaultInitialRTT ∧
+    partsVal "periodicOutputInterval" = some Rto.maxAckDelay ∧
+    partsVal "maxBackOffDuration" = some Rto.maxBackOff ∧
+    partsVal "txCountLimit" = some Rto.txCountLimit ∧
+    Gen.RtoFacts.constExprs.lookup "txTimeoutBackOff" = some "1.5" ∧ 10 * Rto.backOffNum = 15 * Rto.backOffDen := by
+  refine ⟨by decide, by decide, by decide, by decide, by decide, by decide⟩
+
 /-- `RTO()` exactly: 2 s when there is no sample, else ⌊1.5·(srtt + max(4·mdev, 10 ms) + maxAckDelay)⌋. -/
 theorem rto_formula (srtt mdev mad : Nat) :
     Rto.rto srtt mdev mad =
